@@ -833,6 +833,9 @@ def env_jobs(script):
                 out.append(env_lower_job(it[1]))
                 if '{' in it[1] or '}' in it[1]:
                     out.append(env_qname_job(it[1]))
+            if it[0] == 'pi' and ('p', it[1]) not in seen:
+                seen.add(('p', it[1]))
+                out.append(env_pi_job(it[1]))
             if it[0] in ('st', 'se'):
                 for n, v in it[2]:
                     v = n if v is None else v
@@ -873,6 +876,39 @@ def env_strip_job(v):
     return ('env-strip', v, proto.line(Atom('C07'), Atom('unent'), v), real)
 
 
+def env_pi_job(v):
+    """HTMLParser.handle_pi(v) on a fresh real parser against piEvent: [target, data]"""
+    gi, _ = genshi_mods()
+    if has_surrogate(v):
+        return None
+    p = gi.HTMLParser(io.StringIO(''))
+    p.handle_pi(v)
+    (kind, data, _pos), = p._queue
+    if str(kind) != 'PI':
+        return None
+    return ('env-pi', v, proto.line(Atom('C07'), Atom('pi'), v), [data[0], data[1]])
+
+
+# every code point with str.isspace() below U+3001 appears, plus look-alikes that are not white space
+PI_SPACES = [' ', ' ', '  ', '\t', '\n', '\r\n', '\x0b', '\x0c', '\x1c', '\x1d', '\x1e', '\x1f', '\x85', '\xa0', '\u1680', '\u2000',
+             '\u2009', '\u200a', '\u2028', '\u2029', '\u202f', '\u205f', '\u3000']
+PI_WORDS = ['php', 'xml', 'xml-stylesheet', 'a', 'echo', '"x"', 'version="1.0"', '?', '??', '?>', '\u200b', '\ufeff', '\u180e', '\xe9', '=', '<', '']
+
+
+def gen_pi_string(rng):
+    """target / white space / data / white space / optional '?', each part present or not"""
+    r = rng.random()
+    if r < 0.1:
+        body = ''.join(rng.choice(PI_SPACES + PI_WORDS) for _ in range(rng.randrange(0, 7)))
+    else:
+        sp = lambda lo: ''.join(rng.choice(PI_SPACES) for _ in range(rng.randrange(lo, 3)))   # noqa
+        body = sp(0) + rng.choice(PI_WORDS)
+        for _ in range(rng.choice([0, 0, 1, 1, 2, 3])):
+            body += sp(1 if rng.random() < 0.9 else 0) + rng.choice(PI_WORDS)
+        body += sp(0)
+    return body + rng.choice(['', '?', '?', '?', '??', '? ', ' ?'])
+
+
 LOWER_ALPHABET = ['\u03a3', '\u03a3', 'a', 'A', '.', '\u0301', "'", ' ', '1', '\u03c3', '\u03c2', '\u0130', '\u01c5', '\xad', '\u02b0', 'Z', '-', ':',
                   '\U0001d400', '\xdf', '\u1e9e', '\u2160', '\u24b6', '\U00010400', '\xb7', '\u0345', 'I', '\u212a']
 STRIP_PARTS = ['&', '&amp;', '&#65;', '&#x41;', '&#X41', '&#1114112;', '&#xD800;', '&#55296', '&nbsp;', '&junk;', '&lt', ';', 'x', '#', '&#',
@@ -882,7 +918,9 @@ STRIP_PARTS = ['&', '&amp;', '&#65;', '&#x41;', '&#X41', '&#1114112;', '&#xD800;
 def gen_env_jobs(rng, n):
     out = []
     for _ in range(n):
-        if rng.random() < 0.25:
+        if rng.random() < 0.2:
+            out.append(env_pi_job(gen_pi_string(rng)))
+        elif rng.random() < 0.25:
             out.append(env_qname_job('{' * rng.choice([0, 0, 1, 2, 3]) + ''.join(rng.choice(QNAME_ALPHABET) for _ in range(rng.randrange(0, 8)))))
         elif rng.random() < 0.5:
             out.append(env_lower_job(''.join(rng.choice(LOWER_ALPHABET) if rng.random() < 0.9 else G.rand_char(rng)
@@ -1478,6 +1516,17 @@ def mutate(rng, text):
     return ''.join(l)
 
 
+def straddle_text(rng):
+    """a document whose UTF-8 form has a multi-byte character lying across a multiple of the 4096-byte read buffer:
+    in character data, in an attribute value, in a comment, in a processing instruction or in a tag name"""
+    ch = rng.choice(['\xe9', '\u20ac', '\u3000', '\U0001d400', '\u03a3', '\xa0'])
+    opener, closer = rng.choice([('', ''), ('<a title="v', '">t</a>'), ('<!-- c', ' -->'), ('<?php ', ' x ?>'), ('<x', ' y>z</x>'), ('&amp;', ';')])
+    m = rng.choice([1, 1, 2])
+    k = rng.randrange(1, len(ch.encode('utf-8')))          # bytes of the character before the boundary
+    fill = 4096 * m - k - len(opener) - 3
+    return '<p>' + rng.choice(['x', 'q', ' ']) * fill + opener + ch + closer + G.soup(rng, 3)
+
+
 def gen_cases(rng, n, big=1):
     cases = []
     for _ in range(n):
@@ -1529,6 +1578,10 @@ def gen_cases(rng, n, big=1):
             cases.append({'kind': 'syn-xml', 'script': gen_syn_xml(rng)})
     for _ in range(big):
         cases.append({'kind': 'html', 'text': G.big_html(rng, rng.choice([4090, 4200, 8300, 12400]))})
+        # a multi-byte character across the 4096-byte read: the codec reader has to keep the incomplete bytes
+        text = straddle_text(rng)
+        cases.append({'kind': 'html', 'text': text, 'straddle': True})
+        cases.append({'kind': 'html-bytes', 'hex': text.encode('utf-8').hex(), 'encoding': 'utf-8', 'sizes': [4096], 'straddle': True})
         cases.append({'kind': 'html', 'text': G.boundary_html(rng, rng.choice([4096, 4096, 8192]))})
         doc = G.gen_xml_tree(rng)
         filler = {'k': 'e', 'name': ['', 'filler'], 'ns': [], 'attrs': [], 'kids': [
@@ -1885,6 +1938,12 @@ def process_env(jobs, res):
             res.count('env-qname:' + ('leading-braces-and-separator' if arg.startswith('{{') and '}' in arg else
                                       'separator-in-local-part' if arg.lstrip('{').count('}') > 1 else
                                       'namespaced' if '}' in arg else 'plain'))
+        elif stream == 'env-pi':
+            body = arg[:-1] if arg.endswith('?') else arg
+            res.count('env-pi:' + ('qmark' if arg.endswith('?') else 'no-qmark') + ':' +
+                      ('empty-target' if not body.strip() else 'no-data' if len(body.split(None, 1)) < 2 else 'target-and-data'))
+            if any(ch.isspace() and ch not in ' \t\n\r' for ch in arg):
+                res.count('env-pi:non-ascii-or-control-space')
         elif stream == 'env-lower':
             res.count('env-lower:' + ('sigma-final' if '\u03c2' in real and '\u03a3' in arg else 'sigma' if '\u03a3' in arg else
                                       'changed' if real != arg else 'unchanged'))
@@ -1901,6 +1960,7 @@ def shard(arg):
     cases = gen_cases(rng, n, big)
     cases += prefix_cases(rng, nprefix)
     process(cases, res)
+    res.count('gen:multibyte-char-across-4096-byte-read', sum(1 for c in cases if c.get('straddle')))
     process_env(gen_env_jobs(rng, max(20, n // 4)), res)
     res.samples = [c for c in cases if c['kind'] in ('html', 'xml-text') and len(json.dumps(c)) < 300][:2]
     return res
